@@ -184,10 +184,16 @@ def parseBool : String → Option Bool
 
 def handle (op : String) (f : List String) : Verdict :=
   match op, f with
-  | "remove", [revs, namess, pre, dump, outcome, adump, exs, tis, nbs, nodeoks] =>
+  | "remove", [revs, namess, pre, dump, outcome, adump, exs, tis, nbs, nodeoks, bits] =>
     match parseBool revs, parseStrList namess, T.undump dump, parseStrList exs, parseIntList tis, nbs.toInt?, parseBool nodeoks with
     | some rev, some names, some before, some ex, some ti, some nb, some nodeok =>
-      judge (tagIf (pre == "1") "preindex" ++ ["lib"]) rev names before outcome adump (some (ex, ti, nb, nodeok))
+      let v := judge (tagIf (pre == "1") "preindex" ++ ["lib"]) rev names before outcome adump (some (ex, ti, nb, nodeok))
+      -- the branch indexes (bitsets) are refreshed against the NEW tip index: every branch carries the
+      -- split it induces on the remaining tips, and the pruned tree shares its branches with an
+      -- independently built copy (observed by the harness through Bitset/TipIndex/CommonEdges)
+      if bits != "1" && v.status == .pass && C06.uniq before && (kept before names rev).length ≥ 3 then
+        ⟨.oracle, "bitsets-wrong" :: v.tags, "the branch bitsets do not carry the restricted splits: " ++ bits⟩
+      else { v with tags := (if bits == "1" then "bitsets-ok" else "bitsets-unchecked") :: v.tags }
     | _, _, _, _, _, _, _ => bad "C06.remove fields"
   | "cli", [revs, hasF, fnamess, hasC, cdump, randoms, _seed, argss, dump, outcome, adump, hook] =>
     match parseBool revs, parseBool hasF, parseStrList fnamess, parseBool hasC, randoms.toInt?, parseStrList argss, T.undump dump with
@@ -275,12 +281,15 @@ def handle (op : String) (f : List String) : Verdict :=
     | some content, some tips, some removed =>
       let names := tipFileNames content
       let expect := sortStrings (tips.filter names.contains)
+      -- oracle: the tips named by the tokens of the file (Spec.fileTokens) are exactly the ones removed
+      let spec := sortStrings (tips.filter (fileTokens content).contains)
       let tags := ["tipfile"] ++ tagIf (content.contains '\r') "crlf" ++ tagIf (!content.endsWith "\n") "no-final-newline" ++
-        tagIf (names.contains "") "empty-name" ++ tagIf (expect.length ≥ 2) "nontrivial"
+        tagIf (names.contains "") "empty-name" ++ tagIf (content.length > 65536) "long-line" ++ tagIf (spec.length ≥ 2) "nontrivial"
       if outcome != "ok" then
-        (if tips.length - expect.length ≥ 3 then ⟨.tie, tags, "prune -f failed: " ++ outcome⟩ else ⟨.pass, "skip-degenerate" :: tags, ""⟩)
-      else if sortStrings removed != expect then
-        ⟨.tie, tags, "tip file: model reads " ++ showStrList names ++ " the command removed " ++ showStrList removed⟩
+        (if tips.length - spec.length ≥ 3 then ⟨.oracle, tags, "prune -f failed: " ++ outcome⟩ else ⟨.pass, "skip-degenerate" :: tags, ""⟩)
+      else if sortStrings removed != spec then
+        ⟨.oracle, tags, "tip file: the tips named in the file are " ++ showStrList spec ++ " the command removed " ++ showStrList removed⟩
+      else if expect != spec then ⟨.tie, tags, "tip file: the model reads other names than the tokens of the file"⟩
       else ⟨.pass, tags, ""⟩
     | _, _, _ => bad "C06.tipfile fields"
   | _, _ => bad ("C06: unknown op " ++ op)
